@@ -47,6 +47,9 @@ def gen(rng, kind):
     # a parameter batch: every equation reads eq_params["junk"] through a term 1000 * (junk - 2) that vanishes only with the
     # batch rows (all 2); the nominal value is 1, so a dropped or misaligned parameter batch moves every residual by 1000
     cfg["pbatch"] = rng.random() < 0.4
+    # ... or eq_params["junk"] is declared heterogeneous: its nominal value is 1, its function gives 2 at every point, so an
+    # equation that is handed the raw parameters instead of the evaluated ones is off by 1000 as well
+    cfg["het"] = (not cfg["pbatch"]) and rng.random() < 0.5
     if cfg["pbatch"] and rng.random() < 0.5:
         cfg["obs"] = {k: None for k in ukeys}        # ... also without any observation part
     cfg["statio_unknowns"] = []
@@ -99,7 +102,9 @@ def build(cfg):
               else mk([cfg["upolys"][k]] + ([up2[k]] if up2.get(k) else []), eq_type)) for k in cfg["ukeys"]}
     osl = {k: (jnp.s_[v[0]:v[1]] if v else jnp.s_[...]) for k, v in (cfg.get("oslice") or {k: None for k in cfg["ukeys"]}).items()}
     pbatch = bool(cfg.get("pbatch"))
-    PD = ParamsDict(nn_params={k: u.init_params() for k, u in us.items()}, eq_params={"junk": jnp.array(1.0 if pbatch else 2.0)})
+    het = bool(cfg.get("het")) and not pbatch
+    PD = ParamsDict(nn_params={k: u.init_params() for k, u in us.items()}, eq_params={"junk": jnp.array(1.0 if (pbatch or het) else 2.0)})
+    hetkw = dict(eq_params_heterogeneity={"junk": (lambda *a: 2.0 * jnp.ones(()))}) if het else {}
     shift = lambda p: 1000.0 * (jnp.atleast_1d(p.eq_params["junk"]).ravel()[0:1] - 2.0)
     pb = {"junk": 2.0 * jnp.ones((len(cfg["pts"]), 1))} if pbatch else None
     base = {"ode": jinns.loss.ODE, "statio": jinns.loss.PDEStatio, "nonstatio": jinns.loss.PDENonStatio}[kind]
@@ -119,7 +124,7 @@ def build(cfg):
                 def equation(self, t, x, u_dict, params_dict):
                     return sum(c * (u_dict[k](x, params_dict.extract_params(k)) if k in SU else u_dict[k](t, x, params_dict.extract_params(k)))[0:1]
                                for k, c in coef.items()) + poly_jax(q, jnp.concatenate([t, x])) + shift(params_dict)
-        return E()
+        return E(**hetkw)
     dl = {e: mkeq(s) for e, s in cfg["eqs"].items()}
 
     def W(spec):
@@ -286,7 +291,7 @@ def generate(tier, seed, casedir, variant):
             samples.append(dict(jsonable(cfg), returned=terms))
     write_cases(casedir, "C13", "R_C13", variant, cases, chunk=100)
     return dict(meta=meta, oracle_violations=viol, evaluations=len(cases), distinct_nontrivial=len(nontrivial), samples=samples, distribution=dist,
-                rule="random systems (ODE / stationary / non-stationary) with 1..3 equations and 1..3 unknowns (counts independent, key names inserted in any order), residuals linear in the unknowns plus a polynomial that is not symmetric in (t, x), scalar / per-key dictionary / missing weights for every field, initial conditions, normalisation samples and observations per unknown (some unknowns without observations; some with a second output channel and an observation slice of their own; half of the non-stationary systems with two or more unknowns are mixed: their first unknown is a stationary field), Dirichlet conditions on some unknowns with slices / integer indices selecting output components, 40% with a parameter batch the equations depend on (half of those without any observation part); non-trivial = non-zero dynamic term",
+                rule="random systems (ODE / stationary / non-stationary) with 1..3 equations and 1..3 unknowns (counts independent, key names inserted in any order), residuals linear in the unknowns plus a polynomial that is not symmetric in (t, x), scalar / per-key dictionary / missing weights for every field, initial conditions, normalisation samples and observations per unknown (some unknowns without observations; some with a second output channel and an observation slice of their own; half of the non-stationary systems with two or more unknowns are mixed: their first unknown is a stationary field), Dirichlet conditions on some unknowns with slices / integer indices selecting output components, 40% with a parameter batch the equations depend on (half of those without any observation part), 30% with a heterogeneous equation parameter; non-trivial = non-zero dynamic term",
                 oracle_checks=len(cases))
 
 
